@@ -31,7 +31,13 @@ def rendered_texts(dot_text):
         return {}
     ns = "{http://www.w3.org/2000/svg}"
     out = {}
-    for g in ET.fromstring(p.stdout).iter(ns + "g"):
+    # Graphviz copies link targets into xlink:href / xlink:title without escaping '&': repair the
+    # attribute values before parsing (text runs are escaped properly)
+    svg = p.stdout.decode("utf-8", "replace")
+    svg = re.sub(r'(xlink:(?:href|title)=")([^"]*)(")',
+                 lambda m: m.group(1) + re.sub(r"&(?!(?:amp|lt|gt|quot|apos|#\d+|#x[0-9a-fA-F]+);)", "&amp;", m.group(2))
+                 .replace("<", "&lt;") + m.group(3), svg)
+    for g in ET.fromstring(svg.encode("utf-8")).iter(ns + "g"):
         if g.get("class") == "node":
             title = g.find(ns + "title")
             out[title.text if title is not None else ""] = ["".join(t.itertext()) for t in g.iter(ns + "text")]
